@@ -2,7 +2,8 @@
 
 Domain : (1) every .co file shipped in the repository (library, examples, docs, test configs), Colang 1.0 and 2.x;
          (2) generated Colang 2.x programs (vf/co2.py: nested if/while/when, groups, break/continue at every depth,
-             start/await/activate of flows and actions); (3) generated Colang 1.0 programs (vf/co1.py) when available.
+             start/await/activate of flows and actions); (3) generated Colang 1.0 programs (vf/co1.py), and Colang 1.0 texts with label/checkpoint, goto, when/else when,
+             break/continue nested in if/while/when blocks.
 Oracle : static closure predicate over the compiled elements.
          2.x, after initialize_state: every element is a primitive the interpreter's `slide` executes (SpecOp send/match/
          _new_action_instance with a Spec - not a group dict - as spec; Label, Goto, ForkHead, MergeHeads, WaitForHeads,
@@ -86,7 +87,66 @@ def enumerate_cases(tier):
 
 
 @st.composite
+def _v1_block(draw, depth, labels, in_loop):
+    """Colang 1.0 statements incl. the constructs vf/co1 does not model: label/checkpoint, goto, when/else when, break/continue."""
+    lines = []
+    for _ in range(draw(st.integers(1, 4))):
+        kinds = ["bot", "bot", "set", "label"]
+        if depth > 0:
+            kinds += ["if", "while", "when"]
+        if in_loop:
+            kinds += ["break", "continue"]
+        k = draw(st.sampled_from(kinds))
+        if k == "bot":
+            lines.append(f"bot say b{draw(st.integers(0, 5))}")
+        elif k == "set":
+            lines.append(f"$v{draw(st.integers(0, 1))} = {draw(st.integers(0, 3))}")
+        elif k == "label":
+            name = f"l{len(labels)}"
+            labels.append(name)
+            lines.append(draw(st.sampled_from(["label", "checkpoint"])) + " " + name)
+        elif k == "if":
+            lines.append(f"if $v{draw(st.integers(0, 1))} == {draw(st.integers(0, 3))}")
+            lines += ["  " + x for x in draw(_v1_block(depth - 1, labels, in_loop))]
+            if draw(st.booleans()):
+                lines.append("else")
+                lines += ["  " + x for x in draw(_v1_block(depth - 1, labels, in_loop))]
+        elif k == "while":
+            lines.append(f"while $v{draw(st.integers(0, 1))} < {draw(st.integers(1, 3))}")
+            lines += ["  " + x for x in draw(_v1_block(depth - 1, labels, True))]
+        elif k == "when":
+            n = draw(st.integers(1, 3))
+            for i in range(n):
+                lines.append(("when" if i == 0 else "else when") + f" user intent w{draw(st.integers(0, 9))}{i}")
+                lines += ["  " + x for x in draw(_v1_block(depth - 1, labels, in_loop))]
+        else:
+            lines.append(k)
+            break
+    return lines
+
+
+@st.composite
+def _v1_offsets_case(draw):
+    flows = []
+    for fi in range(draw(st.integers(1, 2))):
+        labels = []
+        body = draw(_v1_block(draw(st.integers(1, 3)), labels, False))
+        # gotos only to labels that exist in this flow
+        for _ in range(draw(st.integers(0, 2)) if labels else 0):
+            pos = draw(st.integers(0, len(body)))
+            ind = len(body[pos - 1]) - len(body[pos - 1].lstrip()) if pos > 0 else 0
+            if pos > 0 and body[pos - 1].lstrip().split(" ")[0] in ("if", "while", "when", "else"):
+                ind += 2
+            body.insert(pos, " " * ind + "goto " + draw(st.sampled_from(labels)))
+        flows.append([f"define flow gen{fi}", f"  user intent start{fi}"] + ["  " + x for x in body])
+    text = "\n".join("\n".join(f) for f in flows) + "\n"
+    return {"leg": "v1text", "text": text}
+
+
+@st.composite
 def _case(draw):
+    if draw(st.integers(0, 3)) == 0:
+        return draw(_v1_offsets_case())
     try:
         from vf import co1  # noqa: F401
 
@@ -159,7 +219,7 @@ def check_v2_flow(cfg):
         elif isinstance(e, dict) or isinstance(e, A.Spec):
             t = e.get("_type") if isinstance(e, dict) else "spec"
             empty_stmt = isinstance(e, dict) and t == "stmt" and not e.get("elements")  # a comment-only line: a no-op
-            if t not in ("doc_string_stmt", "docstring", "meta") and not empty_stmt:
+            if t not in ("doc_string_stmt", "docstring", "meta", "pass_stmt") and not empty_stmt:  # `pass` is a placeholder `slide` skips
                 bad.append(("composite-left", f"element {i}: raw {t!r} left in the compiled flow"))
         else:
             bad.append(("composite-left", f"element {i}: {type(e).__name__} left unexpanded"))
@@ -211,6 +271,10 @@ def check_v1_flow(flow):
                 target = i + off
             if not (0 <= target <= n):
                 bad.append(("jump-out-of-flow", f"element {i} ({t}) {key}={e[key]!r} -> {target}, flow has {n} elements"))
+            elif t == "jump" and str(e.get("_debug", "")).startswith("goto ") and key == "_next":
+                name = str(e["_debug"])[5:]
+                if target >= n or els[target].get("_label") != name:
+                    bad.append(("goto-misses-label", f"element {i} goto {name!r} -> {target}, which does not carry that label"))
         for b in e.get("branch_heads", []) or []:
             jumps += 1
             target = i + int(b)
@@ -304,6 +368,22 @@ def _file_case(case):
 def prop(case):
     if case["leg"] == "file":
         return _file_case(case)
+    if case["leg"] == "v1text":
+        from nemoguardrails.colang import parse_colang_file
+
+        text = case["text"]
+        try:
+            parsed = parse_colang_file(filename="gen.co", content=text, include_source_mapping=False, version="1.0")
+        except Exception as e:
+            return ok(skip="v1 text not accepted by the parser: " + type(e).__name__, labels=["v1text", "rejected"])
+        total = 0
+        for fl in parsed.get("flows", []):
+            bad, jumps = check_v1_flow(fl)
+            total += jumps
+            if bad:
+                raise Violation("v1-" + bad[0][0], f"flow {fl.get('id')!r}: {bad[0][1]}\n{text}")
+        labels = ["v1text"] + [k for k in ("label", "checkpoint", "goto", "when", "while", "break", "continue") if k + " " in text or text.rstrip().endswith(k) or ("\n" + k) in text.replace(" ", "")]
+        return ok(nt=total >= 3, labels=labels, view={"program": text, "jump_offsets": total})
     if case["leg"] == "v1gen":
         from nemoguardrails.colang import parse_colang_file
 
